@@ -32,6 +32,10 @@ def main(tier):
         for st in (("comp+enc",) if tier == "quick" else ("comp", "comp+enc")):
             jobs.append(dict(par=dict(stack=st, seed=seed() + 56, level=1, entropy="low", profile="prod"), sid=9000 + len(jobs),
                              cuts="windows", window=w, **s))
+    # long histories (12 files, dozens of interleaved runs): every 3rd cut, every cut near both ends
+    for li, s in enumerate(long_scenarios(seed() % 5)[:2 if tier == "quick" else 8]):
+        for st in ("raw", "enc", "comp", "comp+enc"):
+            jobs.append(dict(par=dict(stack=st, seed=seed() + 91 + li, level=5), sid=9500 + len(jobs), cut_stride=3, **s))
     traces = run_repair_sweeps(jobs, "s20", "c02", shard=4)
     validate_repair_traces(v, "C02", traces, ev, CLAUSES)
     # implementation-level model of the repair loop (spec/RepairLoop.tla): every behaviour replayed on convert_to_archive
